@@ -243,7 +243,8 @@ def unpackNTk (O : Oracle) (cx : Cx) (fx : Fx) : List (String × Ty) → Nat →
   | (n, t) :: fs, nreq, defs, v =>
       let dflt : Option V := if nreq = 0 then defs.head? else none
       let defs' := if nreq = 0 then defs.tail else defs
-      match (if t.constUnpack then pure V.none else pyGetItemStr v n) with
+      -- (`item = value[key]` is a statement of its own here: it is executed for a constant member too)
+      match pyGetItemStr v n with
       | .error e =>
           if e.isKind .keyError then do
             let r ← unpackNTk O cx fx fs (nreq - 1) defs' v
@@ -258,7 +259,8 @@ def unpackNTk (O : Oracle) (cx : Cx) (fx : Fx) : List (String × Ty) → Nat →
 def unpackNTd (O : Oracle) (cx : Cx) (fx : Fx) : List (String × Ty) → V → Int → Bool → R (List V)
   | [], _, _, _ => .ok []
   | (n, t) :: fs, v, i, asD =>
-      match (if t.constUnpack then pure V.none else if asD then pyGetItemStr v n else pyIndexO O v i) with
+      -- since fix F17 the item lookup is a statement of its own, executed for a constant member too
+      match (if t.constUnpack && !cx.fixK3 then pure V.none else if asD then pyGetItemStr v n else pyIndexO O v i) with
       | .error e => if e.isKind .indexError then .ok [] else .error e
       | .ok x =>
         match unpack O cx fx t x with
